@@ -19,7 +19,7 @@ srcs() {
 }
 KEY=$(srcs | xargs sha256sum | sha256sum | cut -c1-24)
 BIN=$CACHE/$KEY/simcheck
-if [ -x "$BIN" ]; then echo "$BIN"; exit 0; fi
+if [ -x "$BIN" ]; then touch "$CACHE/$KEY"; echo "$BIN"; exit 0; fi
 
 S=$(mktemp -d /dev/shm/verif-build.XXXXXX 2>/dev/null || mktemp -d)
 trap 'rm -rf "$S"' EXIT
@@ -41,7 +41,11 @@ EOM
   mkdir -p $CACHE/$KEY
   (cd $VERIF/sim && go build -trimpath -modfile=$S/go.mod -o $CACHE/$KEY/simcheck.tmp ./cmd/simcheck)
   mv $CACHE/$KEY/simcheck.tmp $BIN
-  # keep the cache small: newest four builds only
-  ls -dt $CACHE/*/ 2>/dev/null | tail -n +5 | xargs -r rm -rf
+  # keep the cache small: the newest four builds, and whatever was used (see
+  # the touch above) within the last hour - a check running against another
+  # tree at the same time must not lose its binary to this build
+  for d in $(ls -dt $CACHE/*/ 2>/dev/null | tail -n +5); do
+    if [ -z "$(find "$d" -maxdepth 0 -mmin -60)" ]; then rm -rf "$d"; fi
+  done
 } >&2
 echo "$BIN"
